@@ -37,6 +37,16 @@ INFO = {
    "an imported function that is a root (elem, re-export, start) and not the target of any direct call"),
  "C11-lower-join-keeps-next": ("heap_malloc.wat.ws $wa_l128_free: joining with the lower neighbour no longer sets p->next = bp->next; after an upper merge the absorbed upper block stays on the free list",
    "three address-adjacent blocks of the variable-size list, the outer two freed first and the middle one last, then two allocations served from the stale node and the merged block"),
+ "C21-replacement-char-treated-invalid": ("internal/lsp/protocol/mapper.go PositionOffset: the `sz == 1` part of the invalid-UTF-8 test was dropped, a well-formed U+FFFD is reported as invalid UTF-8 and the change is rejected",
+   "an incremental change whose range start or end lies on a line containing a well-formed U+FFFD, at a column past it"),
+ "C06-else-arm-not-walked": ("watstrip markFuncReachable_ins walks the then-arm of an `if` twice and never the else-arm",
+   "a function whose only references are call instructions inside else arms (not exported, not in elem, not the start function)"),
+ "C09-wz-u16-alias-not-unsigned": ("internal/types/universe_wz.go: the Chinese alias of u16 (短正整) loses its IsUnsigned flag, constant folding of unary ^ on a typed constant of that type goes negative and is rejected",
+   "a .wz program applying unary ^ to a typed constant of type 短正整"),
+ "C13-compare-by-subtraction": ("wir/value_basic.go emitCompare: a fast path orders i32/int/rune (and u8/u16/bool) by subtraction, which wraps for operands more than 2^31-1 apart: the key order of maps is no longer transitive",
+   "a map with int/i32/rune keys (or struct/interface keys containing them) at least two of which differ by more than 2^31-1, and a tree rotation or successor copy that moves such a key"),
+ "C10-bump-fit-check-without-header": ("both allocator copies, $heap_new_allocation: the fits-below-heap-top test uses the payload size without the 8-byte block header",
+   "a request served by the bump allocator whose rounded size equals exactly __heap_top - __heap_ptr"),
  "C04-label-shadow-outermost": ("wat2wasm_helper.go findLabelIndex walks the label stack from the outermost scope: a label name bound twice in nested block/loop/if resolves to the outer binding",
    "a function with two nested blocks/loops/ifs carrying the same label name and a br/br_if/br_table naming it from inside the inner one"),
  "C18-la64-carry-boundary-0x800": ("internal/native/pcrel/la64.go MakeLa64PCRel: hi20 carry applied for lo12 > 0x800 instead of >= 0x800",
